@@ -1,10 +1,10 @@
 #!/bin/sh
 # tools/proc_mut.sh <worktree-name>  -- round-6 style (property named in the first line of notes.md): confirm each mutant, then try it against its property
 wt=$1
-SEEDROOT=${SEEDROOT:-/tmp/seed6}; export SEEDROOT
+SEEDROOT=${SEEDROOT:-/tmp/seed7}; export SEEDROOT
 cd /verif
 timeout 3000 sh tools/confirm_seed.sh $wt
-for v in a b c d; do
+for v in a b c d e; do
   d=$SEEDROOT/$wt/_seed/$v
   [ -f $d/patch.diff ] || continue
   prop=$(head -1 $d/notes.md | sed -n 's/.*PROPERTY: *\(C[0-9][0-9]\).*/\1/p')
